@@ -21,7 +21,7 @@ import (
 func init() {
 	Register(&Prop{
 		ID: "C14", Bubble: true, Run: runC14, QuickRuns: 2500,
-		ExpectedProbes: []string{"recv_send_overlapped", "unary_calls_overlapped", "real_grpc_run", "real_unary_end_to_end", "real_stream_end_to_end", "real_client_refusal", "real_server_refusal", "real_stream_refusal", "real_unary_ctx_fault_hit", "real_stream_ctx_fault_hit"},
+		ExpectedProbes: []string{"recv_send_overlapped", "unary_calls_overlapped", "real_grpc_run", "real_unary_end_to_end", "real_stream_end_to_end", "real_client_refusal", "real_server_refusal", "real_stream_refusal", "real_unary_ctx_fault_hit", "real_stream_ctx_fault_hit", "nested_interceptors", "nested_inner_refusal"},
 		Rule: "one run = one interceptor kind (unary server, unary client, server stream wrapper) with a seeded option combination (limiter given or default, each classifier given or default, custom limit-exceeded code and response) driven through a seeded sequence of calls / RecvMsg / SendMsg operations under a fault plan (limiter refuses call k, handler / invoker / stream errors such as io.EOF, context.Canceled and status errors at seeded positions, classifier answers among success / ignore / dropped); a quarter of the stream runs put RecvMsg and SendMsg of one stream on two tasks over real limit-1 limiters under a seeded schedule; " +
 			"oracle from the event log: Acquire on the right limiter precedes the wrapped call, wrapped call iff granted, exactly one listener method of the classified kind, result and error returned unchanged, refusal => no wrapped call, no listener call, status code and response of the limit-exceeded classifier; " +
 			"one run in eight is END-TO-END: a real gRPC server (library's unary and stream server interceptors over four real limit-1..3 limiters wrapped in recording ledgers) and a real gRPC client (library's unary client interceptor) talk HTTP/2 over an in-memory bufconn listener inside the bubble; 1-6 unary and bidirectional-stream calls with scripted handler durations and status codes arrive on the virtual clock, some with client deadlines or cancellations in the middle of the call (propagated by the real transport); the server's handler goroutines are adopted by the scheduler at their first scheduling point inside the limiter and interleaved with the client tasks by the seeded schedule; oracle over the ledgers after every call returned and the server went quiet: every granted token of every limiter completed exactly once, as dropped iff the call / handler it guarded returned an error; a client-side refusal never reaches the server; a server-side refusal never runs the handler and the client sees ResourceExhausted; without a context fault the client receives exactly the handler's status, reply and (streams) every echo in order, with one send token per SendMsg and one receive token per RecvMsg; all four limiters end with zero tokens in flight; " +
@@ -131,6 +131,10 @@ func runC14(r *Run) {
 	t := r.T
 	if t.Chance(12, "real-grpc") {
 		runC14Real(r)
+		return
+	}
+	if t.Chance(8, "nested-interceptors") {
+		runC14Nested(r)
 		return
 	}
 	kind := t.Intn(3, "interceptor") // 0 unary server, 1 unary client, 2 stream
@@ -626,4 +630,106 @@ func runC14ConcurrentUnary(r *Run, kind int) {
 		r.Nontrivial = true
 		r.Probe("unary_calls_overlapped")
 	}
+}
+
+// runC14Nested: a call that passes through TWO interceptors of the library, each with its own limiter - a limited
+// server handler that makes an outbound call through a limited client with the handler's context (the standard
+// deployment), or two server interceptors chained on one call. Every interceptor must consult its own limiter, run
+// its wrapped call only when granted, and complete its own token exactly once.
+func runC14Nested(r *Run) {
+	t := r.T
+	log := &evLog{}
+	outer := &fakeLimiter{log: log, name: "outer", refuse: map[int]bool{}}
+	inner := &fakeLimiter{log: log, name: "inner", refuse: map[int]bool{}}
+	chainServers := t.Chance(40, "two-server-interceptors")
+	n := 1 + t.Intn(4, "calls")
+	for i := 0; i < n; i++ {
+		if t.Chance(25, "outer-refuses") {
+			outer.refuse[i] = true
+		}
+	}
+	// inner call indices advance only when the inner limiter is reached
+	for i := 0; i < n; i++ {
+		if t.Chance(30, "inner-refuses") {
+			inner.refuse[i] = true
+		}
+	}
+	srvOuter := clgrpc.UnaryServerInterceptor(clgrpc.WithLimiter(outer))
+	srvInner := clgrpc.UnaryServerInterceptor(clgrpc.WithLimiter(inner))
+	cliInner := clgrpc.UnaryClientInterceptor(clgrpc.WithLimiter(inner))
+	r.Mixf("C14 nested chainServers=%v calls=%d outerRefuse=%v innerRefuse=%v", chainServers, n, outer.refuse, inner.refuse)
+	innerSeen := 0
+	for i := 0; i < n; i++ {
+		innermost := 0
+		var innerErr error
+		innerReached := false
+		handler := func(ctx context.Context, req interface{}) (interface{}, error) {
+			innerReached = true
+			if chainServers {
+				return srvInner(ctx, req, &golangGrpc.UnaryServerInfo{FullMethod: "/svc/m"}, func(ctx context.Context, req interface{}) (interface{}, error) {
+					innermost++
+					return "resp", nil
+				})
+			}
+			innerErr = cliInner(ctx, "/downstream/m", req, nil, nil, func(ctx context.Context, method string, req, reply interface{}, cc *golangGrpc.ClientConn, opts ...golangGrpc.CallOption) error {
+				innermost++
+				return nil
+			})
+			return "resp", innerErr
+		}
+		before := len(log.ev)
+		_, err := srvOuter(bg, i, &golangGrpc.UnaryServerInfo{FullMethod: "/svc/m"}, handler)
+		evs := log.ev[before:]
+		if outer.refuse[i] {
+			if innerReached || status.Code(err) != codes.ResourceExhausted {
+				r.Fail("refusal-not-short-circuit", "nested/outer", "outer limiter refused call %d but the handler ran=%v, error %v", i, innerReached, err)
+				return
+			}
+			continue
+		}
+		// the inner interceptor must have asked ITS limiter
+		k := innerSeen
+		innerSeen++
+		wantAcq := fmt.Sprintf("acquire:inner:%d:granted", k)
+		if inner.refuse[k] {
+			wantAcq = fmt.Sprintf("acquire:inner:%d:refused", k)
+		}
+		found := false
+		for _, e := range evs {
+			if e == wantAcq {
+				found = true
+			}
+		}
+		if !found {
+			r.Fail("interceptor-protocol", "nested/inner-limiter-bypassed", "call %d passed the outer interceptor; the inner interceptor (its own limiter) never consulted that limiter: events %v", i, evs)
+			return
+		}
+		if inner.refuse[k] {
+			if innermost != 0 || status.Code(err) != codes.ResourceExhausted {
+				r.Fail("refusal-not-short-circuit", "nested/inner", "inner limiter refused call %d but the wrapped call ran %d time(s), error %v", i, innermost, err)
+				return
+			}
+			r.Probe("nested_inner_refusal")
+		} else if innermost != 1 {
+			r.Fail("interceptor-protocol", "nested/inner", "call %d was granted by both limiters; the innermost call ran %d time(s)", i, innermost)
+			return
+		}
+		// exactly one completion per granted token
+		cnt := map[string]int{}
+		for _, e := range evs {
+			if len(e) > 9 && e[:9] == "listener:" {
+				cnt[e[9:14]]++
+			}
+		}
+		wantInner := 1
+		if inner.refuse[k] {
+			wantInner = 0
+		}
+		if cnt["outer"] != 1 || cnt["inner"] != wantInner {
+			r.Fail("interceptor-protocol", "nested/completions", "call %d: outer token completed %d time(s), inner token %d time(s) (expected 1 and %d): events %v", i, cnt["outer"], cnt["inner"], wantInner, evs)
+			return
+		}
+	}
+	r.Nontrivial = true
+	r.Probe("nested_interceptors")
 }
